@@ -150,10 +150,11 @@ namespace TAO_PEGTL_NAMESPACE
 
       void require( const std::size_t amount )
       {
-         if( m_current.data + amount <= m_end ) {
+         // Compare sizes, not pointers: m_current.data + amount may lie (far) beyond the end of the buffer.
+         if( amount <= buffer_occupied() ) {
             return;
          }
-         if( m_current.data + amount > m_buffer.get() + m_maximum ) {
+         if( amount - buffer_occupied() > buffer_free_after_end() ) {
 #if defined( __cpp_exceptions )
             throw std::overflow_error( "require() beyond end of buffer" );
 #else
@@ -161,7 +162,14 @@ namespace TAO_PEGTL_NAMESPACE
             std::terminate();
 #endif
          }
-         m_end += m_reader( m_end, ( std::min )( buffer_free_after_end(), ( std::max )( amount - buffer_occupied(), Chunk ) ) );
+         // A reader may return fewer bytes than requested (like read()-style functions); only zero means end of input.
+         do {
+            const std::size_t n = m_reader( m_end, ( std::min )( buffer_free_after_end(), ( std::max )( amount - buffer_occupied(), Chunk ) ) );
+            if( n == 0 ) {
+               return;
+            }
+            m_end += n;
+         } while( buffer_occupied() < amount );
       }
 
       template< rewind_mode M >
